@@ -705,6 +705,20 @@ func ioCopy(fr *frame, a []value) value {
 		}
 	}
 	if st, ok := nativeOf[*md5state](dst); ok {
+		if cr, ok := nativeOf[*creader](src); ok {
+			// hashing tagged content: "md5-<tag>" iff it is the whole version
+			fs := i.world.FS()
+			full, known := fs.versions[cr.tag]
+			if known && !cr.done && i.truth("md5:from0", i.equalsV(types.Typ[types.Int64], cr.src, int64(0))) &&
+				i.truth("md5:whole", i.equalsV(types.Typ[types.Int64], cr.n, full)) {
+				st.hex = "md5-" + cr.tag
+			} else {
+				fs.badHash++
+				st.hex = fmt.Sprintf("md5-other-%d", fs.badHash)
+			}
+			cr.done = true
+			return tuple{cr.n, iface{}}
+		}
 		if sh, ok := nativeOf[*fhandle](src); ok {
 			i.fsOp("read", sh.path, false)
 			if sh.node.isBlob || len(sh.node.segs) == 0 {
